@@ -399,7 +399,59 @@ theorem fresh_write (size max : Nat) (bs : Bytes) :
     · exact hge
   · intro hle; exact (h.1 hle).1
 
+theorem write_inv (b : DBuf) (bs : Bytes) (hi : Inv b) : Inv (b.write bs).1 ∧ (b.write bs).1.max = b.max := by
+  induction bs generalizing b with
+  | nil => exact ⟨hi, rfl⟩
+  | cons c cs ih =>
+    by_cases hroom : b.data.length < b.max
+    · obtain ⟨b', hp, _, hm, hinv⟩ := put_some b c hi hroom
+      simp only [DBuf.write, hp]
+      obtain ⟨a1, a2⟩ := ih b' hinv
+      exact ⟨a1, a2.trans hm⟩
+    · have hn := put_none b c hi (by omega)
+      simp only [DBuf.write, hn]
+      exact ⟨hi, trivial⟩
+
+/-- T6 (a response is complete or refused, piece by piece): writing the pieces of a response one after the other through the
+    capped buffer, with the state checked after every piece, succeeds exactly when ALL of them together fit the maximum — wherever
+    the maximum falls: inside a header value, between two pieces, in the body — and then the buffer holds exactly their
+    concatenation; otherwise the attempt is refused (and `sendFixed` puts nothing on the wire). -/
+theorem pieces_complete_or_refused (b : DBuf) (pieces : List Bytes) (hi : Inv b) :
+    ((b.writePieces pieces).2 = true ↔ b.data.length + pieces.flatten.length ≤ b.max) ∧
+    ((b.writePieces pieces).2 = true → (b.writePieces pieces).1.data = b.data ++ pieces.flatten) := by
+  induction pieces generalizing b with
+  | nil =>
+    have h1 := hi.1; have h2 := hi.2
+    simp only [DBuf.writePieces, List.flatten_nil, List.length_nil, Nat.add_zero, List.append_nil, implies_true, and_true, true_iff]
+    omega
+  | cons p ps ih =>
+    have hw := dbuf_write b p hi
+    obtain ⟨winv, wmax⟩ := write_inv b p hi
+    simp only [DBuf.writePieces, List.flatten_cons, List.length_append]
+    by_cases hfit : b.data.length + p.length ≤ b.max
+    · obtain ⟨r1, r2⟩ := hw.1 hfit
+      simp only [r1, if_true]
+      obtain ⟨i1, i2⟩ := ih (b.write p).1 winv
+      rw [r2, wmax] at i1
+      rw [r2] at i2
+      constructor
+      · rw [i1]; simp only [List.length_append]; omega
+      · intro h; rw [i2 h, List.append_assoc]
+    · obtain ⟨r1, _⟩ := hw.2 (by omega)
+      simp only [r1, Bool.false_eq_true, if_false, false_iff, false_implies, and_true]
+      omega
+
+/-- the same for a fresh buffer of any initial size: `sendFixed`'s all-or-nothing is what the checked piecewise writes give -/
+theorem fresh_pieces (size max : Nat) (pieces : List Bytes) :
+    (((DBuf.init size max).writePieces pieces).2 = true ↔ pieces.flatten.length ≤ max) ∧
+    (((DBuf.init size max).writePieces pieces).2 = true → ((DBuf.init size max).writePieces pieces).1.data = pieces.flatten) := by
+  have := pieces_complete_or_refused (DBuf.init size max) pieces (init_inv size max)
+  simpa [DBuf.init] using this
+
 /-! ### Non-vacuity (tests) -/
+example : ((DBuf.init 4 10).writePieces [[1, 2, 3], [4, 5, 6, 7], [8]]).2 = true := by decide
+example : ((DBuf.init 4 7).writePieces [[1, 2, 3], [4, 5, 6, 7], [8]]).2 = false := by decide      -- the cap falls between two pieces
+example : ((DBuf.init 4 5).writePieces [[1, 2, 3], [4, 5, 6, 7], [8]]).2 = false := by decide      -- inside a piece, the tail would fit
 example : WF { code := 200, headers := [(bytes "Server", bytes "x")], cookies := [bytes "a=b"] } :=
   ⟨by intro h hh; simp at hh; subst hh; simp [noCR, bytes], by intro c hc; simp at hc; subst hc; simp [noCR, bytes]⟩
 example : (sendFixed 100 { code := 200, headers := [], cookies := [] } (bytes "hello")).result = .ok 43 := by decide +kernel
